@@ -292,7 +292,7 @@ def apply_known(run):
     for v in run.violations:
         hit = None
         for k in known.get('known', []):
-            if k['property'] != run.pid:
+            if run.pid not in (k['property'] if isinstance(k['property'], list) else [k['property']]):
                 continue
             m = k['match']
             if m.get('fid') == v['fid'] and m.get('clause') == v['clause'] and v['input']:
